@@ -18,6 +18,8 @@ extern const char *const c_kind_names[C_NKINDS];
 #define F_NULL_IN 8
 #define F_INPLACE 16
 #define F_FRONT 32       /* front-guarded buffers (default: back-guarded) */
+#define F_TWEAK_IN 64    /* Mantis parallel: the tweak array is the input buffer itself */
+#define F_TWEAK_OUT 128  /* Mantis parallel, out of place: the tweak array lies in the output buffer (each tweak is consumed before its block is written) */
 
 typedef struct {
     uint8_t kind, flags;
